@@ -2,9 +2,118 @@
 package c04
 
 import (
+	"fmt"
+	"math/big"
+
+	sdkmath "cosmossdk.io/math"
+
 	"verifharness/amm"
 	"verifharness/emit"
 )
+
+// gapCorpus (every run): a pool that keeps positions but none in range must keep its price when a
+// new position arrives with another amount ratio; a pool whose LAST position is removed while it is
+// out of range must be reset like any other emptied pool, and the next first position sets the price.
+func gapCorpus(w *amm.World, cf *emit.CasesFile, st *emit.Stats) error {
+	p, err := w.CreatePool("uusdc", "uosmo", "0.003", "1.0001", "0")
+	if err != nil {
+		return err
+	}
+	ctx := w.H.Ctx()
+	e9 := big.NewInt(1_000_000_000)
+	z := big.NewInt(0)
+	var ids []uint64
+	step := func(o amm.Op, must bool) error {
+		term, err := w.Step(ctx, p, o, must)
+		cf.Add(term)
+		info := o.Info()
+		info["pool"] = p.ID
+		if err != nil {
+			info["err"] = err.Error()
+			st.Count(o.Kind + ":err")
+		} else {
+			st.Count(o.Kind + ":ok")
+		}
+		st.Info(info)
+		st.Evaluations++
+		st.Nontriv("corpus/" + o.Tag)
+		// a step that should succeed and does not is an observation (c_must_ok), not a reason to stop
+		return nil
+	}
+	create := func(s int, lo, up int64, b, q *big.Int, tag string) error {
+		if err := step(amm.Op{Kind: "create", Sender: s, Lower: lo, Upper: up, Base: b, Quote: q, MinBase: z, MinQuote: z, Tag: tag}, true); err != nil {
+			return err
+		}
+		poss, _ := w.K.GetPositionsByPool(ctx, p.ID)
+		ids = ids[:0]
+		for _, q := range poss {
+			ids = append(ids, q.Id)
+		}
+		return nil
+	}
+	closeAll := func(idx int, tag string) error {
+		poss, _ := w.K.GetPositionsByPool(ctx, p.ID)
+		if idx >= len(poss) {
+			return nil
+		}
+		q := poss[idx]
+		owner := 0
+		for i, a := range w.H.Accts {
+			if a.Addr.String() == q.Address {
+				owner = i
+			}
+		}
+		d, err := sdkmath.LegacyNewDecFromStr(q.Liquidity)
+		if err != nil {
+			return fmt.Errorf("bad liquidity %q", q.Liquidity)
+		}
+		liq := d.BigInt()
+		return step(amm.Op{Kind: "decrease", Sender: owner, Pid: q.Id, Liq: liq, Tag: tag}, true)
+	}
+	three := new(big.Int).Mul(big.NewInt(3), e9)
+	if err := create(0, -50, 50, e9, e9, "gap/A-in-range"); err != nil {
+		return err
+	}
+	if err := create(1, 200, 300, e9, z, "gap/B-above"); err != nil {
+		return err
+	}
+	if err := create(2, -300, -200, z, e9, "gap/D-below"); err != nil {
+		return err
+	}
+	if err := closeAll(0, "gap/A-withdrawn-leaves-gap"); err != nil {
+		return err
+	}
+	// C offers amounts in the ratio of the price at tick 250 (inside B's range) on a range around it:
+	// at the pool's real price (tick 0) that range is above the price and takes base only
+	if err := create(0, 150, 350, e9, big.NewInt(1_025_300_000), "gap/C-created-in-gap-other-ratio"); err != nil {
+		return err
+	}
+	if err := create(2, -20, 30, three, e9, "gap/E-created-around-the-price-other-ratio"); err != nil {
+		return err
+	}
+	_ = step(amm.Op{Kind: "swap", Sender: 1, ExactIn: true, DenomIn: 0, Amount: big.NewInt(1000), Tag: "gap/swap-base-in"}, false)
+	_ = step(amm.Op{Kind: "swap", Sender: 1, ExactIn: true, DenomIn: 1, Amount: big.NewInt(5000), Tag: "gap/swap-quote-in"}, false)
+	// withdraw everything, the out-of-range position D last
+	for _, tag := range []string{"gap/close-1", "gap/close-2", "gap/close-3"} {
+		poss, _ := w.K.GetPositionsByPool(ctx, p.ID)
+		idx := -1
+		for i, q := range poss {
+			if q.LowerTick != -300 {
+				idx = i
+			}
+		}
+		if idx < 0 {
+			break
+		}
+		if err := closeAll(idx, tag); err != nil {
+			return err
+		}
+	}
+	if err := closeAll(0, "gap/last-position-out-of-range-withdrawn"); err != nil {
+		return err
+	}
+	return create(1, -40, 60, e9, three, "gap/first-position-on-the-emptied-pool")
+}
 
 func Run(seed int64, n int, outDir string) error {
 	w := amm.NewWorld(seed)
@@ -14,6 +123,9 @@ func Run(seed int64, n int, outDir string) error {
 	}
 	st := emit.NewStats("C04", seed, "generated histories of create/increase/decrease/claim/swap/allocate over 4 pools with different fee and tick parameters, one case per operation (pre-state, op, result, post-state of the real module and bank), then two full drains; non-trivial = the step crossed an initialised tick, removed the last position, created a position on an emptied pool, or moved the price (distinct by pool and resulting price)")
 	cf := &emit.CasesFile{Import: "Amm.C04Check", Runner: "run", Type: "amm_case"}
+	if err := gapCorpus(w, cf, st); err != nil {
+		return err
+	}
 	if err := w.History(cf, st, n); err != nil {
 		return err
 	}
